@@ -51,3 +51,12 @@ func VerifWatch(ch chan []tls.Certificate, refresh time.Duration, path string, l
 func VerifLoadCertificates(pemBlocks map[string][]byte) ([]tls.Certificate, error) {
 	return loadCertificates(pemBlocks)
 }
+
+// VerifLoadURL exposes loadURL (the loader of HTTPSource).
+func VerifLoadURL(listURL string) (map[string][]byte, error) { return loadURL(listURL) }
+
+// VerifLoadPath exposes loadPath (the loader of PathSource).
+func VerifLoadPath(root string) (map[string][]byte, error) { return loadPath(root) }
+
+// VerifMaxSize is the size above which loadPath skips a file.
+const VerifMaxSize = MaxSize
